@@ -36,6 +36,13 @@ type controller struct {
 	arrived map[string]chan string   // conn tag -> channel of point names reached
 	release map[string]chan struct{} // conn tag -> release tokens
 	free    map[string]bool          // conn tags that are no longer scheduled (run freely to the end)
+	armed   map[string]bool          // send-side tags for which the next arrival parks
+}
+
+func (c *controller) arm(tag string) {
+	c.mu.Lock()
+	c.armed[tag] = true
+	c.mu.Unlock()
 }
 
 func (c *controller) chans(tag string) (chan string, chan struct{}) {
@@ -56,6 +63,14 @@ func (c *controller) yield(point string, r *http.Request) {
 	a, rel := c.chans(tag)
 	c.mu.Lock()
 	fr := c.free[tag]
+	if strings.HasPrefix(tag, "key:") {
+		// send-side points park only when a sendBegin event armed them
+		if c.armed[tag] {
+			c.armed[tag] = false
+		} else {
+			fr = true
+		}
+	}
 	c.mu.Unlock()
 	if fr {
 		return
@@ -114,6 +129,20 @@ func run(c *hk.Ctx) {
 	}
 	c.SetExtra("facts", en.Facts)
 	c.SetExtra("schedules_enumerated", len(en.Schedules))
+	// schedules in which a send's table lookup and its write are separate steps (one handler, depth+1)
+	var en2 struct {
+		Schedules [][]ev `json:"schedules"`
+	}
+	{
+		cmd2 := exec.Command(filepath.Join(root, "lean/.lake/build/bin/drv_streams"))
+		cmd2.Stdin = strings.NewReader(fmt.Sprintf(`{"c":"streams.enumerate","handlers":1,"depth":%d,"sends":1,"split":true}`+"\n", depth+1))
+		var out2 bytes.Buffer
+		cmd2.Stdout = &out2
+		if err := cmd2.Run(); err == nil {
+			json.Unmarshal(out2.Bytes(), &en2)
+		}
+	}
+	c.SetExtra("split_schedules_enumerated", len(en2.Schedules))
 	// the model's witness schedules for the two bad regions always run first (search stage starts from them)
 	i0, i1, m := 0, 1, 7
 	witness := [][]ev{
@@ -134,7 +163,7 @@ func run(c *hk.Ctx) {
 	} else {
 		c.SetExtra("exhaustive_at_depth", depth)
 	}
-	ctl := &controller{arrived: map[string]chan string{}, release: map[string]chan struct{}{}, free: map[string]bool{}}
+	ctl := &controller{arrived: map[string]chan string{}, release: map[string]chan struct{}{}, free: map[string]bool{}, armed: map[string]bool{}}
 	mcp.VerifSetYield(ctl.yield)
 	defer mcp.VerifSetYield(nil)
 	if en.Facts["flushBeforeStore"] {
@@ -145,7 +174,12 @@ func run(c *hk.Ctx) {
 	for _, s := range witness {
 		runSchedule(c, ctl, s, true)
 	}
+	// the model's witness for the "no closed mark" region always runs (lookup, client drops the stream, handler returns, write)
+	runSchedule(c, ctl, []ev{{E: "open", N: &i0}, {E: "store", N: &i0}, {E: "flush", N: &i0}, {E: "sendBegin", M: &m}, {E: "close", N: &i0}, {E: "wake", N: &i0}, {E: "exit", N: &i0}, {E: "sendEnd", M: &m}}, true)
 	for _, s := range scheds {
+		runSchedule(c, ctl, s, false)
+	}
+	for _, s := range en2.Schedules {
 		runSchedule(c, ctl, s, false)
 	}
 }
@@ -174,6 +208,13 @@ func runSchedule(c *hk.Ctx, ctl *controller, sched []ev, isWitness bool) {
 		gone    bool
 	}
 	hs := map[int]*hstate{}
+	type sendState struct {
+		marker   string
+		done     chan any
+		release  chan struct{}
+		finished bool
+	}
+	sends := map[int]*sendState{}
 	outs := []map[string]any{}
 	valid := true
 	owner := -1
@@ -182,6 +223,13 @@ func runSchedule(c *hk.Ctx, ctl *controller, sched []ev, isWitness bool) {
 	closedByUs := map[int]bool{}
 	reconnectSendAfterHeaders := false
 	releaseAll := func() {
+		ctl.setFree("key:" + sid)
+		for _, sb := range sends {
+			select {
+			case sb.release <- struct{}{}:
+			default:
+			}
+		}
 		for _, h := range hs {
 			ctl.setFree(h.tag)
 			for i := 0; i < 8; i++ {
@@ -310,6 +358,65 @@ func runSchedule(c *hk.Ctx, ctl *controller, sched []ev, isWitness bool) {
 			}
 			// DELETE removes the session: later sends fail with "session not found" in the real server for another reason;
 			// the model only tracks the stream table, so schedules continuing with a send after delete compare on failed=true.
+		case "sendBegin":
+			marker := fmt.Sprintf("m-%d-%d", runNo, *e.M)
+			sb := &sendState{marker: marker, done: make(chan any, 1)}
+			sends[*e.M] = sb
+			sa, sr := ctl.chans("key:" + sid)
+			sb.release = sr
+			ctl.arm("key:" + sid)
+			go func() {
+				defer func() {
+					if r := recover(); r != nil {
+						sb.done <- fmt.Sprintf("panic: %v", r)
+					}
+				}()
+				err := f.S.SendNotification(sid, "notifications/message", map[string]interface{}{"level": "info", "data": marker})
+				sb.done <- err
+			}()
+			select {
+			case <-sa: // parked between lookup and write
+				o = map[string]any{"inflight": true}
+			case r := <-sb.done:
+				sb.finished = true
+				if r != nil {
+					o = map[string]any{"failed": true}
+				} else {
+					o = map[string]any{"inflight": "completed-without-parking"}
+				}
+			case <-time.After(ceiling):
+				o = map[string]any{"reached": "stuck"}
+			}
+		case "sendEnd":
+			sb := sends[*e.M]
+			if sb == nil || sb.finished {
+				o = map[string]any{"disabled": true}
+				break
+			}
+			sb.release <- struct{}{}
+			select {
+			case r := <-sb.done:
+				switch v := r.(type) {
+				case string:
+					o = map[string]any{"crashed": true}
+					c.Violate(hk.Violation{Fingerprint: "streams:write-after-handler-return:panic",
+						What:  "SendNotification panicked: it looked the GET stream up, the stream's handler returned (client gone), then it wrote to the finished response: " + v,
+						Input: map[string]any{"schedule": sched}, Observed: v})
+				case error:
+					o = map[string]any{"failed": true}
+				default:
+					if n := findMarker(sb.marker, 60*time.Millisecond); n >= 0 {
+						o = map[string]any{"delivered": n}
+					} else if len(closedByUs) > 0 {
+						o = map[string]any{"delivered": "to-closed"}
+					} else {
+						o = map[string]any{"delivered": "pending"}
+						pending = append(pending, pend{len(outs), sb.marker})
+					}
+				}
+			case <-time.After(ceiling):
+				o = map[string]any{"reached": "stuck"}
+			}
 		case "send":
 			marker := fmt.Sprintf("m-%d-%d", runNo, *e.M)
 			err := f.S.SendNotification(sid, "notifications/message", map[string]interface{}{"level": "info", "data": marker})
